@@ -81,10 +81,15 @@ func init() {
 	// a time-out event installed over a queued event loses that event, and later events of the stream are
 	// committed past it (seeded change C01-f); handled by the C04 stream driver (Drv/All.lean)
 	execs["c01.stream"] = execStream
+	// ... and the retry family "Stop while a failing batch sits in its back-off pause" (c09.go): a batch abandoned
+	// by Stop and then committed passes events that were neither acknowledged nor given up (seeded change C01-g);
+	// handled by the C09 trace driver (Drv/All.lean)
+	execs["c01.retry"] = ExecC09StopInBackoff
 	if old, ok := gens["C01"]; ok {
 		gens["C01"] = func(w *bufio.Writer, rng *hx.Rng, tier string) {
 			old(w, rng, tier)
 			genC04PutHeartbeat(w, hx.NewRng(rng.U64()), tier, "c01.stream")
+			genC09StopInBackoff(w, hx.NewRng(rng.U64()), tier, "c01.retry")
 		}
 	}
 	execs["c04.run"] = execC01
